@@ -271,7 +271,7 @@ fn fs_entry_point(sc: &SinkSc, g: Gen, bin: &str, reference: &[u8], log: &mut Lo
         }
         // half of the time under a binary name that differs from the command's own name (an installed alias):
         // the reference is then what generate() writes under that same name
-        let alt = format!("alt-{bin}");
+        let alt = format!("alt.{bin}.v1");
         let (bin, reference_owned): (&str, Option<Vec<u8>>) = if sc.plan.cap.map(|c| c % 2 == 0).unwrap_or(sc.queries.len() % 2 == 0) {
             let mut fresh = build_cmd(&sc.spec);
             match generate_with(g, &mut fresh, &alt, &[], &FaultPlan::perfect()).0 {
